@@ -326,9 +326,22 @@ def run(ctx):
             for a in t["args"][2:4]:
                 sl = Slice(d).run(a)
                 oks = oks and any(k == df.key for k, _, _ in sl["calls"])
-            # the skip path is controlled by thread::panicking
-            oks = oks and any(callee_key(t2["callee"]).endswith("thread::panicking") for _, t2 in d.calls())
-        ctx.ob("R4.sink", span.split("::")[-1], oks, d.loc(), f"add_span calls per path {pc}; deltas flow from {delta_fn.split('::')[-1]}")
+            # the only skip path is `thread::panicking() == true`
+            from ..analysis import skips_only_via, err_outcomes_diverge
+
+            def pred(u, v, src, lab):
+                return src.get("kind") == "call" and callee_key(src["term"]["callee"]).endswith("thread::panicking") and lab != 0
+            only, edges = skips_only_via(d, [bb for bb, _ in sink], pred)
+            oks = oks and only and bool(edges)
+            # the metrics lock is taken unconditionally (blocking) and a poisoned lock is not tolerated silently
+            locks = [(bb, t2) for bb, t2 in d.calls() if t2["callee"].get("method") in ("lock", "try_lock") and
+                     callee_key(t2["callee"]).rsplit("::", 1)[0].endswith("Mutex")]
+            lock_ok = len(locks) == 1 and locks[0][1]["callee"].get("method") == "lock" and err_outcomes_diverge(d, locks[0][0])[0]
+            oks = oks and lock_ok
+            det_sink = f"; only skip is thread::panicking(): {only}; metrics lock is a blocking lock whose error diverges: {lock_ok}"
+        else:
+            det_sink = ""
+        ctx.ob("R4.sink", span.split("::")[-1], oks, d.loc(), f"add_span calls per path {pc}; deltas flow from {delta_fn.split('::')[-1]}" + det_sink)
         n = news[0]
         ctx.fn(n)
         # start snapshot taken from the same source
